@@ -528,6 +528,9 @@ impl Bdd {
     }
 
     fn generate_var_dependencies(&mut self) {
+        // start from scratch: the lists of an object that already has them must not be appended to
+        #[cfg(feature = "variablelist")]
+        self.var_deps.clear();
         #[cfg(feature = "variablelist")]
         self.nodes.iter().for_each(|node| {
             if node.var() >= Var::BOT {
